@@ -241,6 +241,8 @@ def run(ctx):
     from sa.rules import C02
     C02.number_syntax(ctx, repo)
     C02.injectivity(ctx, repo, dis)
+    from sa.rules import C02round
+    C02round.run(ctx, repo)
     from sa.rules import memo
     memo.run_for(ctx, repo, 'C01')
     return report.finish(ctx, EXPLANATION)
